@@ -297,6 +297,7 @@ func evalString(s string) (r realRes) {
 }
 
 func TestC31(t *testing.T) {
+	curProp = "C31"
 	rec := ev.New("C31", "rapid-generated constants: strings of arbitrary bytes (escape look-alikes, quotes, backslashes, control, high, NUL) as SuStr/SuConcat/SuExcept, numbers in every representation (no literal exists for +-inf: excluded), dates, timestamps, booleans, nested objects/records with unnamed and named members (string, number, date, boolean keys); compile.Constant(v.String()) and the quoted displays must equal v. Second oracle: the same string written with the escapes documented in String.md (random alternatives) must evaluate to it. Unterminated literals: generated prefixes with \" ' ` with and without escapes as constant, in an object, in a function, in an evaluated expression and in query where / extend must all be errors. Non-trivial: a value whose display needs an escape or is a container with named or nested members; an unterminated literal containing an escape; distinct = by displayed text / literal text.")
 	rec.Assumptions = []string{
 		"+-inf have no literal: containers holding them are excluded (counted)",
